@@ -153,6 +153,24 @@ fn run_history(m: &mut ReManager, prog: &Program, noise_n: usize, rng: &mut Rng,
         let pool = terms.clone();
         noise(m, rng, &pool, noise_n / 4, 200);
     }
+    // a query storm on every result before re-issuing: emptiness, witness, start_char, derivatives, compile
+    // (queries may fill interior memo tables; constructions afterwards must still return the same objects)
+    for (k, &t) in terms.iter().enumerate() {
+        if closure_size(m, t, 150).is_none() {
+            continue;
+        }
+        rep.inc("results_queried_before_reissue");
+        let _ = guard(|| {
+            let _ = m.is_empty_re(t);
+            let _ = m.get_string(t);
+            let _ = m.start_char(t, 0x61);
+            let _ = m.char_derivative(t, 0x62);
+            if k % 3 == 0 {
+                let _ = m.compile(t);
+            }
+            let _ = m.iter_derivatives(t).take(2).count();
+        });
+    }
     for k in 0..terms.len() {
         rep.inc("constructor_calls_reissued");
         match guard(|| prog.ops[k].apply_mgr(m, &terms)) {
